@@ -239,10 +239,20 @@ pub fn inject(sp: &SProgram, class: usize, site: usize) -> Option<Injected> {
                     return None;
                 }
             }
-            let which = site % 2;
-            let s = if which == 0 { sw(acc, fs, SP) } else { lw(31, fs + 4, SP) };
+            // every access width: the lint must not depend on which load or store it is
+            let which = site % 8;
+            let s = match which {
+                0 => sw(acc, fs, SP),
+                1 => lw(31, fs + 4, SP),
+                2 => inst(Inst::Store(SOp::Sb, acc, SP, fs)),
+                3 => inst(Inst::Load(LOp::Lbu, 31, SP, fs + 4)),
+                4 => inst(Inst::Store(SOp::Sh, acc, SP, fs)),
+                5 => inst(Inst::Load(LOp::Lh, 31, SP, fs + 4)),
+                6 => inst(Inst::Load(LOp::Lb, 31, SP, fs)),
+                _ => inst(Inst::Load(LOp::Lhu, 31, SP, fs + 2)),
+            };
             let mut stmts = insert(sp, p, vec![s]);
-            if which == 1 {
+            if which % 2 == 1 || which == 6 {
                 // consume the loaded value so that only the stack access is at fault
                 stmts.insert(p + 1, inst(Inst::R(ROp::Add, acc, acc, 31)));
             }
